@@ -9,7 +9,7 @@ RULE = ('(1) arbitrary text (Hypothesis strings over ZINC tokens and arbitrary c
         '(2) every single-character edit (delete, insert, replace with each edit character, truncate at every offset) and '
         'line-boundary splice of a corpus of small well-formed documents: hszinc.parse(text, ZINC, single=False) must return a '
         'list of Grid or raise ZincParseException (a ValueError) whose (line, col) is (0,0) or lies inside exc.grid_str; '
-        'parse_scalar may raise only ValueError subclasses; a 60 s watchdog marks a case inconclusive. (3) documents broken '
+        'parse_scalar may raise only ValueError subclasses; a watchdog (20 s, then a 90 s second attempt) turns a hang into did-not-terminate; a single expiry is only inconclusive. (3) documents broken '
         'by construction - header dropped / unquoted / empty / capitalised / non-numeric version, closing quote or backquote '
         'of the last literal on a line removed, illegal escape \\q or \\u12G4 or trailing backslash inserted, an opening or '
         'closing bracket of a list/dict/nested grid removed, a column/meta/dict tag renamed to start with an upper-case '
@@ -17,7 +17,7 @@ RULE = ('(1) arbitrary text (Hypothesis strings over ZINC tokens and arbitrary c
         'ZincParseException. Non-trivial = the text keeps an intact version header (reaches the grammar) or is a class-3 '
         'breaker; distinct by text.')
 ASSUMPTIONS = ['input is str (charset errors of bytes input are not this property)', 'bracket nesting <= 3',
-               'a watchdog expiry is reported as inconclusive, never as a violation']
+               'normal parses of the generated inputs take milliseconds; only a case that exceeds 20 s and then 90 s on a second attempt is reported as non-terminating']
 FEATURES = {'zinc.tab-position': 'for text containing a TAB the reported column refers to the tab-expanded text and can lie '
                                  'beyond the end of the line (pyparsing expands tabs before parsing)'}
 EXCL = frozenset()
@@ -58,6 +58,44 @@ def bounded_nesting(t, maxdepth=3):
     return u''.join(out)
 
 
+WATCHDOG_S = 20
+CONFIRM_S = 90
+
+
+def _timed(fn, seconds):
+    """run fn() under an alarm; returns ('ok', result) | ('exc', exception) | ('timeout', None)"""
+    old = signal.signal(signal.SIGALRM, _alarm)
+    signal.alarm(seconds)
+    try:
+        try:
+            return ('ok', fn())
+        finally:
+            signal.alarm(0)
+            signal.signal(signal.SIGALRM, old)
+    except Timeout:
+        return ('timeout', None)
+    except BaseException as e:  # noqa - classified by the caller
+        return ('exc', e)
+
+
+def _terminating(fn, case):
+    """A first expiry of the watchdog is only 'inconclusive'; the case is then repeated with a much longer budget
+    (normal parses of these inputs take milliseconds) and only a second expiry is reported: the property demands
+    that parsing terminates."""
+    global WATCHDOG_S, CONFIRM_S
+    r = _timed(fn, WATCHDOG_S)
+    if r[0] != 'timeout':
+        return r
+    r = _timed(fn, CONFIRM_S)
+    if r[0] == 'timeout':
+        w, c = WATCHDOG_S, CONFIRM_S
+        # one confirmed hang is enough to fail the check; do not spend minutes on each further one (shrinking!)
+        WATCHDOG_S, CONFIRM_S = 2, 4
+        raise Violation('did-not-terminate', case, 'parsing %d characters did not finish within %d s, nor within %d s on a second attempt' % (
+            len(case.get('text', case.get('scalar', ''))), w, c))
+    return ('inconclusive', None)
+
+
 def check_text(text, acc=None, want_reject=False, what=None):
     """the oracle of parts 1-3; returns 'parsed' | 'rejected' | 'inconclusive'"""
     import hszinc
@@ -65,17 +103,11 @@ def check_text(text, acc=None, want_reject=False, what=None):
     case = {'text': text}
     if what:
         case['breaker'] = what
-    old = signal.signal(signal.SIGALRM, _alarm)
-    signal.alarm(60)
-    try:
-        try:
-            res = hszinc.parse(text, mode=hszinc.MODE_ZINC, single=False)
-        finally:
-            signal.alarm(0)
-            signal.signal(signal.SIGALRM, old)
-    except Timeout:
+    kind, val = _terminating(lambda: hszinc.parse(text, mode=hszinc.MODE_ZINC, single=False), case)
+    if kind == 'inconclusive':
         return 'inconclusive'
-    except ZincParseException as e:
+    if kind == 'exc' and isinstance(val, ZincParseException):
+        e = val
         if not isinstance(e, ValueError):
             raise Violation('not-a-valueerror', case, 'ZincParseException is not a ValueError')
         line, col = e.line, e.col
@@ -90,11 +122,19 @@ def check_text(text, acc=None, want_reject=False, what=None):
             if not (1 <= line <= len(lines)) or not (1 <= col <= len(lines[line - 1]) + 1):
                 raise Violation('position', case, 'line %d col %d is outside the text (%d lines, that line has %d chars)' % (
                     line, col, len(lines), len(lines[line - 1]) if 1 <= line <= len(lines) else -1))
+        # a document that is rejected as a whole must not yield a grid through single=True either
+        k1, v1 = _terminating(lambda: hszinc.parse(text, mode=hszinc.MODE_ZINC, single=True), case)
+        if k1 == 'ok':
+            raise Violation('rejected-document-yields-grid', case, 'parse(single=False) rejects the document but parse(single=True) returned %s' % (
+                type(v1).__name__,))
+        if k1 == 'exc' and not isinstance(v1, ZincParseException):
+            raise Violation('foreign-exception', case, 'parse(single=True) raised %s' % describe_exc(v1), (type(v1).__name__,))
         if acc is not None:
             acc.label('rejected:' + ('unknown-position' if (line, col) == (0, 0) else 'positioned'))
         return 'rejected'
-    except Exception as e:  # noqa
-        raise Violation('foreign-exception', case, 'parse raised %s' % describe_exc(e), (type(e).__name__,))
+    if kind == 'exc':
+        raise Violation('foreign-exception', case, 'parse raised %s' % describe_exc(val), (type(val).__name__,))
+    res = val
     if not isinstance(res, list) or not all(isinstance(g, hszinc.Grid) for g in res):
         raise Violation('result-type', case, 'parse returned %r' % (type(res).__name__,))
     if want_reject:
@@ -108,20 +148,13 @@ def check_text(text, acc=None, want_reject=False, what=None):
 def check_scalar_text(text, ver):
     import hszinc
     case = {'scalar': text, 'ver': ver}
-    old = signal.signal(signal.SIGALRM, _alarm)
-    signal.alarm(60)
-    try:
-        try:
-            hszinc.parse_scalar(text, mode=hszinc.MODE_ZINC, version=ver)
-        finally:
-            signal.alarm(0)
-            signal.signal(signal.SIGALRM, old)
-    except Timeout:
+    kind, val = _terminating(lambda: hszinc.parse_scalar(text, mode=hszinc.MODE_ZINC, version=ver), case)
+    if kind == 'inconclusive':
         return 'inconclusive'
-    except ValueError:
-        return 'rejected'
-    except Exception as e:  # noqa
-        raise Violation('scalar-foreign-exception', case, 'parse_scalar raised %s' % describe_exc(e), (type(e).__name__,))
+    if kind == 'exc':
+        if isinstance(val, ValueError):
+            return 'rejected'
+        raise Violation('scalar-foreign-exception', case, 'parse_scalar raised %s' % describe_exc(val), (type(val).__name__,))
     return 'parsed'
 
 
@@ -179,6 +212,7 @@ def breaker_docs(ver, filler, k):
     yield 'header-non-numeric-version', doc(header='ver:"abc"')
     yield 'header-missing-colon', doc(header='ver "%s"' % ver)
     yield 'unterminated-string', doc(row1='%s,"mid","end' % fv)
+    yield 'unterminated-long-string', doc(row1='%s,"mid","%s' % (fv, 'The quick brown fox jumps over the lazy dog 0123456789 ' * 2))
     yield 'unterminated-string-in-meta', doc(header='ver:"%s" dis:"D' % ver)
     yield 'unterminated-uri', doc(row1='%s,"mid",`http://x' % fv)
     yield 'illegal-escape-q', doc(row1='%s,"mi\\qd","end"' % fv)
@@ -186,7 +220,7 @@ def breaker_docs(ver, filler, k):
     yield 'trailing-backslash', doc(row1='%s,"mid","end\\"' % fv)
     yield 'illegal-uri-escape', doc(row1='%s,"mid",`a\\qb`' % fv)
     yield 'raw-newline-in-string', doc(row1='%s,"mi\nd","end"' % fv)
-    for bad in ('Abc', '9a', 'a-b', '_a', 'aB c:'):
+    for bad in ('Abc', '9a', 'a-b', '_a', 'aB c:', u'na\xefve', u'col\u0661', u'a\xb5', u't\xe4g_1', 'a.b', 'a$'):
         yield 'illegal-column-name', doc(cols='a,%s,c' % bad)
         yield 'illegal-meta-tag', doc(header='ver:"%s" %s:1' % (ver, bad))
         yield 'illegal-column-meta-tag', doc(cols='a,b %s:"x",c' % bad)
@@ -196,7 +230,7 @@ def breaker_docs(ver, filler, k):
                                ('<<ver:"3.0"\nx\n1\n>>', ['<<ver:"3.0"\nx\n1\n', 'ver:"3.0"\nx\n1\n>>', '<<ver:"3.0"\nx\n1\n>'])):
             for v in variants:
                 yield 'unbalanced-bracket', '\n'.join([head, 'a', v, ''])
-        for bad in ('Abc', '9a', 'a-b'):
+        for bad in ('Abc', '9a', 'a-b', u't\xe4g', u'x\u0661'):
             yield 'illegal-dict-tag', doc(row1='{%s:1},"mid","end"' % bad)
         for v3 in ('NA', '[1]', '{a:1}', '<<ver:"2.0"\nx\n1\n>>', 'Foo("x")', '[]', '{}'):
             yield '3.0-construct-under-2.0', '\n'.join(['ver:"2.0"', 'a,b', '%s,1' % v3, ''])
